@@ -278,6 +278,18 @@ Definition listoffsets_merge (reqs : list lo_request) (results : list sub_result
       end
     else MergeOk {| r_throttle := ms_throttle s; r_topics := merge_finish (ms_topics s) |}.
 
+(* transport.go (connPool.roundTrip, Splitter case; join; joined.await): the request is
+   split, every message is sent (send = sendRequest + await of that promise: an answer or
+   an error), the results are collected POSITIONALLY — results[i] belongs to messages[i],
+   and a failed promise contributes its error as a result instead of aborting the call —
+   and handed to Merge together with the messages. *)
+Definition await_all (send : lo_request -> sub_result) (messages : list lo_request) : list sub_result :=
+  map send messages.
+
+Definition split_round_trip (send : lo_request -> sub_result) (r : lo_request) : merge_result :=
+  let messages := listoffsets_split r in
+  listoffsets_merge messages (await_all send messages).
+
 (* ------------------------------------------------------------------------- *)
 (* conn.go: readOffset's parser of the list-offsets v1 response                *)
 
